@@ -66,3 +66,57 @@ Proof. eexists. eexists. vm_compute. repeat split. Qed.
 Example C17_source_junit_script_case_witness :
   exists k tc, MJ.convert_script [115] MJ.JLeak true false = MJ.CCase k tc /\ MJ.tc_status tc = MJ.TSuccess [].
 Proof. eexists. eexists. vm_compute. repeat split. Qed.
+
+(* ---- from the test list to the run count and the priority queue (C01 / C02) *)
+
+(* C01 "exit status zero exactly when every selected test passed" and C02 "every selected test runs once" count against
+   initial_run_count. That number is TestList::run_count() = test_count - skip_counts().skipped_tests, and skipped_tests
+   is the number of listed tests whose filter match is a Mismatch -- for EVERY reason, Partition included. With
+   test_count the number of listed tests (the view [list_view]) the source's run count IS the number of selected tests
+   of Model/ExecuteStream.v. Leaving partition mismatches out of the skipped count makes initial_run_count too large
+   (an all-passing shard then ends "cancelled", exit 100) and falsifies it. *)
+Theorem C01_source_run_count :
+  forall ls,
+    G.run_count (G.TestList_test_count (list_view ls)) (G.skip_counts_skipped_tests (list_view ls)) = ME.run_count ls.
+Proof. exact gen_run_count_is_model. Qed.
+Print Assumptions C01_source_run_count.
+
+(* ... and that is the number of selected tests [c_sel] of the protocol configuration the run-level theorems
+   (Properties/Run.v, the C02 theorems) are stated for, when the stream is built from the same listed tests *)
+Theorem C02_source_run_count :
+  forall rt nc ls total scripts grps,
+    G.run_count (G.TestList_test_count (list_view ls)) (G.skip_counts_skipped_tests (list_view ls)) =
+    N.of_nat (length (MUn.c_sel (MRun.rc_cfg (MRun.mk_rcfg (ME.queue_src rt nc ls) total scripts rt grps)))).
+Proof. exact gen_run_count_is_selected. Qed.
+Print Assumptions C02_source_run_count.
+
+(* the model's side: a mismatch of any kind is not counted; selected / unselected split the list *)
+Theorem C01_run_count_ignores_every_mismatch :
+  forall ls l r, ME.l_match l = MFl.Mismatch r -> ME.run_count (l :: ls) = ME.run_count ls.
+Proof. exact PE.mismatch_not_counted. Qed.
+Print Assumptions C01_run_count_ignores_every_mismatch.
+
+Theorem C02_stream_is_run_configuration :
+  forall rt nc ls total scripts grps,
+    let c := MRun.rc_cfg (MRun.mk_rcfg (ME.queue_src rt nc ls) total scripts rt grps) in
+    MUn.c_sel c = map ME.l_id (ME.selected ls) /\ MUn.c_unsel c = map ME.l_id (ME.unselected ls) /\
+    ME.run_count ls = N.of_nat (length (MUn.c_sel c)).
+Proof. exact PE.run_count_is_selected. Qed.
+Print Assumptions C02_stream_is_run_configuration.
+
+(* C02 "unselected tests never run" needs them to be SEEN: TestPriorityQueue::new keeps every test iter_tests() yields,
+   selected or not (they are reported Skipped by the stream, C14_source_execute_filter_stage), also when nothing is
+   selected. The queue before its stable sort by priority is the list itself; the sort permutes it. An early return of
+   an empty queue makes the request ambiguous (two `Self { tests }` literals: not translated). *)
+Theorem C02_source_priority_queue :
+  forall ls prof st,
+    map G.TestInstanceWithSettings_instance (G.priority_queue_tests (list_view ls) prof st) =
+    G.TestList_iter_tests (list_view ls) /\
+    length (G.priority_queue_tests (list_view ls) prof st) = length ls.
+Proof. intros; split; [apply gen_priority_queue_is_model | apply gen_priority_queue_keeps_all]. Qed.
+Print Assumptions C02_source_priority_queue.
+
+Example C01_source_run_count_witness :
+  ME.run_count [ME.mk_listed 1 MFl.Matches (MC.RCount 1) None; ME.mk_listed 2 (MFl.Mismatch MFl.MPartition) (MC.RCount 1) None;
+                ME.mk_listed 3 (MFl.Mismatch MFl.MDefaultFilter) (MC.RCount 1) None] = 1.
+Proof. vm_compute. reflexivity. Qed.
